@@ -503,7 +503,9 @@ func constNud(p *parser, t *token) *token {
 		t.Append(plural(symAtPos(t.Pos, ",")))
 		t.Append(plural(symAtPos(t.Pos, ",")))
 		p.Advance("(")
-		var prev, prevType *token
+		var prevType *token
+		var prev []*token // the expression list of the last spec that had one
+		spec := 0         // iota: the index of the spec, however many names it declares
 		for p.Token.Symbol != ")" {
 			if decl := getDecl(p, kind); decl != nil {
 				for _, tt := range plural(decl.Tokens[0]).Tokens {
@@ -519,18 +521,23 @@ func constNud(p *parser, t *token) *token {
 					t.Tokens[0].Append(tt)
 				}
 				if len(decl.Tokens) > 1 {
+					prev = nil
 					for _, tt := range plural(decl.Tokens[1]).Tokens {
-						prev = tt.Copy()
-						tt.Replace("iota", "(int)", fmt.Sprint(len(t.Tokens[1].Tokens)))
+						prev = append(prev, tt.Copy())
+						tt.Replace("iota", "(int)", fmt.Sprint(spec))
 						t.Tokens[1].Append(tt)
 					}
 				} else {
-					for range plural(decl.Tokens[0]).Tokens {
-						tt := prev.Copy()
-						tt.Replace("iota", "(int)", fmt.Sprint(len(t.Tokens[1].Tokens)))
+					for i := range plural(decl.Tokens[0]).Tokens {
+						if i >= len(prev) {
+							panicf("missing init expr for const declaration")
+						}
+						tt := prev[i].Copy()
+						tt.Replace("iota", "(int)", fmt.Sprint(spec))
 						t.Tokens[1].Append(tt)
 					}
 				}
+				spec++
 			}
 		}
 		p.Advance(")")
